@@ -245,6 +245,9 @@ class FakeSocket:
                 # TODO: make a signature attribute for transactions
                 if self._transaction is not None \
                         and func_name not in ('exec', 'discard', 'multi', 'watch'):
+                    if func_name in ('subscribe', 'psubscribe', 'unsubscribe', 'punsubscribe'):
+                        # Their acknowledgements cannot be part of the EXEC reply
+                        raise SimpleError(msgs.COMMAND_IN_MULTI_MSG)
                     self._transaction.append((func, sig, fields[1:]))
                     result = QUEUED
                 else:
